@@ -37,7 +37,8 @@ class Ctx:
             self.tier = 'quick'
         self.seed = int(seed if seed is not None else os.environ.get('VERIF_SEED', '20260927'))
         self.rng = random.Random(self.seed)
-        self.work = os.path.join(VERIF, '.work', pid)
+        # (the seeded-change runner redirects scratch and evidence so that evidence/ always describes /repo itself)
+        self.work = os.path.join(os.environ.get('VERIF_WORK_DIR', os.path.join(VERIF, '.work')), pid)
         shutil.rmtree(self.work, ignore_errors=True)
         os.makedirs(self.work)
         self.t0 = time.time()
@@ -125,8 +126,9 @@ class Ctx:
         ev = {'property_id': self.pid, 'tier': self.tier, 'seed': self.seed, 'level': level,
               'coverage': cov, 'assumptions': list(assumptions), 'wall_s': round(wall, 1),
               'violations': len(self.violations)}
-        os.makedirs(os.path.join(VERIF, 'evidence'), exist_ok=True)
-        with open(os.path.join(VERIF, 'evidence', f'{self.pid}.json'), 'w') as f:
+        evdir = os.environ.get('VERIF_EVIDENCE_DIR', os.path.join(VERIF, 'evidence'))
+        os.makedirs(evdir, exist_ok=True)
+        with open(os.path.join(evdir, f'{self.pid}.json'), 'w') as f:
             json.dump(ev, f, indent=1, default=str)
         for kid, v in self.known_hits.items():
             print(f"KNOWN-FINDING: property={self.pid} {kid}: {v['entry']['what']} ({v['count']} matching rejection(s); e.g. {v['example']})")
